@@ -480,3 +480,58 @@ class DivAnalysis:
                     d.obligation = False
                 self.divisions.append(d)
         return self.divisions
+
+
+# ------------------------------------------------------------------ generic helpers on top of DivAnalysis
+NEG = {"eq0": "ne0", "ne0": "eq0", "lt0": "ge0", "ge0": "lt0", "le0": "gt0", "gt0": "le0"}
+
+
+def negate_key(k: str) -> str:
+    tag, rest = k.split("[", 1)
+    return NEG.get(tag, "not-" + tag) + "[" + rest if tag in NEG else f"not[{k}]"
+
+
+def guard_atoms(da: "DivAnalysis", node: Node, resolved=True) -> List[str]:
+    """Normal-form comparison atoms known to hold at `node` from dominating branch conditions."""
+    from .poly import cmp_key
+    out: List[str] = []
+
+    def keyof(test, gnode):
+        if isinstance(test, ast.Compare) and len(test.ops) == 1:
+            l = da.resolve(test.left, gnode) if resolved else Normaliser().norm(test.left)
+            r = da.resolve(test.comparators[0], gnode) if resolved else Normaliser().norm(test.comparators[0])
+            return cmp_key(test.ops[0], l, r)
+        return (da.resolve(test, gnode) if resolved else Normaliser().norm(test)).key()
+
+    def interp(test, arm, gnode):
+        if isinstance(test, ast.BoolOp):
+            if isinstance(test.op, ast.And) and arm:
+                for v in test.values:
+                    interp(v, True, gnode)
+                return
+            if isinstance(test.op, ast.Or) and not arm:
+                for v in test.values:
+                    interp(v, False, gnode)
+                return
+            parts = []
+            for v in test.values:
+                try:
+                    parts.append(keyof(v, gnode))
+                except Unsupported:
+                    parts.append(ast.unparse(v))
+            tag = "and" if isinstance(test.op, ast.And) else "or"
+            k = f"{tag}[{';'.join(sorted(parts))}]"
+            out.append(k if arm else f"not[{k}]")
+            return
+        if isinstance(test, ast.UnaryOp) and isinstance(test.op, ast.Not):
+            interp(test.operand, not arm, gnode)
+            return
+        try:
+            k = keyof(test, gnode)
+        except Unsupported:
+            k = ast.unparse(test)
+        out.append(k if arm else negate_key(k))
+
+    for g, arm in da.cfg.guards_of(node):
+        interp(g.stmt.test, arm, g)
+    return out
